@@ -79,6 +79,35 @@ func runC12(c *ShardCtx) {
 			}
 		}
 	}
+	// classes with the SAME members written differently in one grammar (each is named by its own
+	// source text): both failing at one offset, and at different offsets
+	{
+		src := func(e *peg.Expr, s string) *peg.Expr { e.Src = s; return e }
+		pairs := [][2]func() *peg.Expr{
+			{func() *peg.Expr { return src(peg.Cls(false, false, "_", "a-c"), "[_a-c]") }, func() *peg.Expr { return src(peg.Cls(false, false, "a-c", "_"), "[a-c_]") }},
+			{func() *peg.Expr { return src(peg.Cls(false, false, "A"), "[A]") }, func() *peg.Expr { return src(peg.Cls(false, false, "A"), `[\x41]`) }},
+			{func() *peg.Expr { return src(peg.Cls(false, false, `\pL`), `[\pL]`) }, func() *peg.Expr { return src(peg.Cls(false, false, `\p{L}`), `[\p{L}]`) }},
+			{func() *peg.Expr { return src(peg.Cls(false, true, "a", "b"), "[ab]i") }, func() *peg.Expr { return src(peg.Cls(false, true, "b", "a"), "[ba]i") }},
+			{func() *peg.Expr { return src(peg.Lit("a"), `"a"`) }, func() *peg.Expr { return src(peg.Lit("a"), `'a'`) }},
+		}
+		famP := *fam
+		famP.gens = gens4
+		famP.inputs = [][]byte{{}, []byte("#"), []byte("#a"), []byte("a#"), []byte("9"), []byte("_9"), []byte("A9"), []byte("é#")}
+		for _, pr := range pairs {
+			idx++
+			if !c.Mine(idx) {
+				continue
+			}
+			for _, body := range []*peg.Expr{
+				peg.Choice(peg.Seq(pr[0](), peg.Lit("1")), peg.Seq(pr[1](), peg.Lit("2"))),
+				peg.Seq(peg.Opt(peg.Lit("#")), pr[0](), pr[1](), peg.Lit("!")),
+				peg.Seq(peg.Not(pr[0]()), peg.Any(), pr[1]()),
+				peg.Choice(pr[1](), pr[0](), peg.Lit("#")),
+			} {
+				runGrammar(c, &peg.Grammar{Rules: []*peg.Rule{{Name: "S", Expr: body}}}, &famP)
+			}
+		}
+	}
 	// scanning idioms: the SAME terminal matches under ! at several increasing offsets (skip-until
 	// loops, keyword guards), followed by every kind of ending
 	{
